@@ -582,7 +582,7 @@ int main(int argc, char **argv) {
             // determinism gate 1: the same seed twice, same fingerprint, same violation
             Outcome a = evaluate_isolated(*pd, p, seed, rv.run, false), b = evaluate_isolated(*pd, p, seed, rv.run, false);
             bool same = a.fingerprint == b.fingerprint && !a.viol.empty() && !b.viol.empty() && a.viol[0].inv == rv.inv && b.viol[0].inv == rv.inv;
-            if (!same) { fprintf(stderr, "objsim: run %llu does not repeat (fingerprints %016llx / %016llx): harness nondeterminism\n", (unsigned long long)rv.run, (unsigned long long)a.fingerprint, (unsigned long long)b.fingerprint); ++harness_nondeterminism; continue; }
+            if (!same) { fprintf(stderr, "objsim: run %llu does not repeat (fingerprints %016llx / %016llx): harness nondeterminism\n", (unsigned long long)rv.run, (unsigned long long)a.fingerprint, (unsigned long long)b.fingerprint); ++harness_nondeterminism; --per_sig[rv.sig]; continue; }
         }
         g_trials = 0;
         g_target_sig = (rv.inv == "sanitizer-report" || rv.inv == "worker-death") ? "" : rv.sig;
@@ -633,6 +633,7 @@ int main(int argc, char **argv) {
     }
     j += "  ]\n}\n";
     if (!out.empty()) { std::ofstream f(out); f << j; } else fputs(j.c_str(), stdout);
-    if (harness_nondeterminism) return 2;
+    // see thrsim.cpp: non-repeating raw violations are a harness fault unless other violations were confirmed
+    { size_t confirmed = 0; for (auto &F : finals) confirmed += F.reproduced; if (harness_nondeterminism && confirmed == 0) return 2; }
     return finals.empty() ? 0 : 1;
 }
